@@ -23,7 +23,7 @@ pub enum X {
 
 pub const BASES: u64 = 6;
 pub const DGRAMS: u64 = 10;
-pub const JMAX: u64 = 3308;
+pub const JMAX: u64 = 3309;
 pub const ENUM_SPACE: u64 = BASES * DGRAMS * JMAX;
 
 #[derive(Clone, Debug)]
@@ -35,6 +35,8 @@ enum Mutation {
     Misdeliver(usize),
     Remask(usize),
     SpoofSource,
+    /// presented from the genuine sender's IP but another UDP port
+    SpoofPort,
     /// insert junk bytes behind the auth-data and patch the (masked) authdata-size field to cover
     /// them: XOR in the masked domain flips the same bits in the clear, so no key is needed
     GrowAuthData(usize),
@@ -209,11 +211,14 @@ async fn run_async(ctx: &mut Ctx, enumerate: bool) {
                         Mutation::Insert((jsel - 9 * l) as usize, 0xA5)
                     } else if jsel < 10 * l + 8 {
                         Mutation::GrowAuthData(1 + (jsel - 10 * l) as usize)
+                    } else if jsel == 10 * l + 8 {
+                        Mutation::SpoofPort
                     } else {
                         Mutation::None
                     }
                 } else {
-                    match ctx.tape.choose(10) {
+                    match ctx.tape.choose(11) {
+                        10 => Mutation::SpoofPort,
                         9 => Mutation::GrowAuthData(1 + ctx.tape.choose(12) as usize),
                         0 | 1 => Mutation::FlipBit(ctx.tape.choose(len as u32 * 8) as usize),
                         2 => Mutation::Truncate(ctx.tape.choose(len as u32) as usize),
@@ -275,6 +280,11 @@ async fn run_async(ctx: &mut Ctx, enumerate: bool) {
                         }
                         None => (rec.bytes.clone(), to, rec.src, "grow_auth_data"),
                     },
+                    Mutation::SpoofPort => {
+                        let mut src = rec.src;
+                        src.set_port(rec.src.port().wrapping_add(7));
+                        (rec.bytes.clone(), to, src, "same_ip_other_port")
+                    }
                     Mutation::SpoofSource => {
                         let other = (from + 1 + (to == (from + 1) % 3) as usize) % 3;
                         (rec.bytes.clone(), to, w.nodes[other].addr, "spoofed_source")
